@@ -151,6 +151,23 @@ def callers_pass_literals(fx, f, param):
     return n > 0, n
 
 
+def text_rewrites(fx, serializer_re):
+    """(fn, #serializer calls, [(method, constant pattern or None, span)]) per function group that calls a JSON serializer"""
+    import re as _re
+    out = []
+    for f in fx.fns.values():
+        if f.closure or f.derived:
+            continue
+        grp = fx.body_group(f)
+        ser = [t for g in grp for _, t in g.calls() if _re.search(serializer_re, t[1].get("d", ""))]
+        if not ser:
+            continue
+        reps = [(t[1]["d"].split("::")[-1], M.const_str(t[2][1]) if len(t[2]) > 1 else None, t[6]) for g in grp for _, t in g.calls()
+                if _re.search(r"(<impl str>::replace(n)?$|String::replace_range$)", t[1].get("d", ""))]
+        out.append((f, len(ser), reps))
+    return out
+
+
 def run(tier):
     ck = Check("C16", tier, "representation-invariant check at every construction site of PropertyKey::String (operand provenance, canonicaliser discovery, one level of caller provenance) + dominance of the JSON exporter's recursion by its visited-set test",
                ["fidelity of strings, numbers and key order through serde_json (values)", "depth of acyclic graphs (C06 R3)"])
@@ -238,4 +255,18 @@ def run(tier):
         if not ok:
             ck.finding("R2.json-cycle-refusal", "R2.json-cycle-refusal/restore", F.short_span(ex.span),
                        "the exporter never removes an object from the visited set: a value referenced twice (a DAG) is refused as cyclic")
+    # ---------------- R3 serialized JSON text is not rewritten by a structure-blind substitution
+    ck.rule("R3.no-text-rewrite", "no function that serializes JSON text applies str::replace / replacen / replace_range to text (a pattern without a line break can occur inside a string value or key)", floor=2)
+    for f, ser, reps in text_rewrites(fx, r"serde_json::(ser::)?to_(string|vec|writer)(_pretty)?$"):
+        bad = [r for r in reps if r[1] is None or "\n" not in r[1]]
+        ck.instance("R3.no-text-rewrite", f.path, F.short_span(f.span), ok=not bad)
+        if bad:
+            ck.finding("R3.no-text-rewrite", "R3.no-text-rewrite/" + f.path, F.short_span(bad[0][2]),
+                       "`%s` serializes JSON and then rewrites text with `%s(%r, ..)`: the substitution also hits string values and keys that contain the pattern, "
+                       "so the text no longer reads back as the document (or is no longer JSON)" % (f.path, bad[0][0], bad[0][1]))
+    ctl = F.load_fixture()
+    hits = {f.path: reps for f, ser, reps in text_rewrites(ctl, r"c16text::to_string_pretty$")}
+    if not hits.get("c16text::bad_reindent") or hits.get("c16text::good_reindent"):
+        ck.closed_fail.append("R3 positive control failed (%s)" % {k: len(v) for k, v in hits.items()})
+    ck.note("R3 positive control: fixture bad_reindent reported, good_reindent (line-anchored re-indentation) silent")
     return ck.finish()
